@@ -15,8 +15,8 @@ TECHNIQUE = ('runtime monitoring with fault injection: the real parse_folder.mai
              'injected instead of write number p+1 for every position p, the batch is resumed with -s, and an offline checker compares the final tree and the page-event log with an uninterrupted '
              'reference run; a sample of positions is replayed as real processes killed with os._exit to validate the simulation')
 RULE = ('5 pages x 2 lines (ids a, b.v2, c.jpg_x, d.xml, e.logits.1), cropper + stub OCR; scenario = (subset of the five output kinds, sequence of 1-3 crash positions in 0..#writes, then a final resume). '
-        'quick: 4 subsets x every single crash position + random double/triple crashes + the nothing-to-do run; thorough: all 31 subsets x every single position, all pairs of positions for three '
-        'subsets, random triples, real-process kills. non-trivial = at least one crash strictly inside the batch; distinct = hash of (subset, crash sequence)')
+        'quick: 4 subsets x every single crash position + random double/triple crashes + the nothing-to-do run; thorough: all 31 subsets x every single position, pairs of positions on a (2,3)-grid for three '
+        'subsets, 600 random double/triple crashes, real-process kills. non-trivial = at least one crash strictly inside the batch; distinct = hash of (subset, crash sequence)')
 ASSUMPTIONS = ['a kill happens between two output writes (a write itself is atomic); simulated by raising a BaseException subclass instead of the next write, validated against real os._exit kills',
                'outputs are compared modulo Created/LastChange/processingDateTime; logits by unpickled content; JPEGs byte-wise', '"complete page" = all its requested outputs exist when the run starts']
 N = {'quick': 0, 'thorough': 0}      # filled in by scenarios()
